@@ -855,6 +855,42 @@ def _atomic_sum(bounds, body):
     return _opaque_sum(bounds, body)
 
 
+_COMMUTATIVE = (z3.Z3_OP_ADD, z3.Z3_OP_MUL, z3.Z3_OP_AND, z3.Z3_OP_OR, z3.Z3_OP_EQ, z3.Z3_OP_DISTINCT)
+
+
+def _canon(e, memo=None):
+    """rebuild e with the arguments of commutative operators sorted by their printed form, so that
+    the canonical form of a sum does not depend on z3's creation-order-dependent argument order"""
+    if memo is None:
+        memo = {}
+    k = e.get_id()
+    if k in memo:
+        return memo[k]
+    if z3.is_app(e) and e.num_args() > 0:
+        ch = [_canon(c, memo) for c in e.children()]
+        kind = e.decl().kind()
+        if kind in _COMMUTATIVE:
+            ch.sort(key=lambda c: c.sexpr())
+            if kind == z3.Z3_OP_ADD:
+                r = z3.Sum(ch) if len(ch) > 1 else ch[0]
+            elif kind == z3.Z3_OP_MUL:
+                r = z3.Product(ch) if len(ch) > 1 else ch[0]
+            elif kind == z3.Z3_OP_AND:
+                r = z3.And(*ch)
+            elif kind == z3.Z3_OP_OR:
+                r = z3.Or(*ch)
+            elif kind == z3.Z3_OP_EQ:
+                r = ch[0] == ch[1]
+            else:
+                r = z3.Distinct(*ch)
+        else:
+            r = e.decl()(*ch)
+    else:
+        r = e
+    memo[k] = r
+    return r
+
+
 def _opaque_sum(bounds, body):
     import hashlib
 
@@ -864,8 +900,8 @@ def _opaque_sum(bounds, body):
     for perm in itertools.permutations(range(len(bounds))):
         pb = [bounds[i] for i in perm]
         subs = [(b[0], z3.Int(f"__B{j}")) for j, b in enumerate(pb)]
-        rb = z3.substitute(body, *subs)
-        rbounds = [(z3.substitute(lo, *subs), z3.substitute(hi, *subs)) for _, lo, hi in pb]
+        rb = _canon(z3.substitute(body, *subs))
+        rbounds = [(_canon(z3.substitute(lo, *subs)), _canon(z3.substitute(hi, *subs))) for _, lo, hi in pb]
         s = rb.sexpr() + "|" + "|".join(f"{lo.sexpr()},{hi.sexpr()}" for lo, hi in rbounds)
         if best is None or s < best[0]:
             best = (s, pb, rb, rbounds)
@@ -891,14 +927,18 @@ def _opaque_sum(bounds, body):
         return r
 
     def abstract(e):
-        if z3.is_int_value(e) or z3.is_rational_value(e) or z3.is_true(e) or z3.is_false(e):
+        if z3.is_rational_value(e) or z3.is_true(e) or z3.is_false(e):
             return e
+        if z3.is_int_value(e):
+            # integer literals (typically indices of length-1 axes) are parameters as well, so that a
+            # literal 0 and an index term known to be 0 lead to the same function symbol
+            params.append(e)
+            return z3.Const(f"__P{len(params) - 1}", e.sort())
         if not has_bound(e) and (z3.is_int(e) or z3.is_real(e)):
-            k = e.get_id()
-            if k not in pindex:
-                pindex[k] = len(params)
-                params.append(e)
-            return z3.Const(f"__P{pindex[k]}", e.sort())
+            # every occurrence gets its own parameter: the canonical form must not depend on whether
+            # two arguments happen to be the same term
+            params.append(e)
+            return z3.Const(f"__P{len(params) - 1}", e.sort())
         if z3.is_app(e) and e.num_args() > 0:
             ch = [abstract(c) for c in e.children()]
             return e.decl()(*ch)
